@@ -366,7 +366,7 @@ def install_late(spec: Spec):
                       ('nothing_in_hand', 'inhand == 0', [])],
             modifies=[('_event_completed_signal', '*'), ('ev_set', '*'), ('q_items', '*'), ('q_unfinished', '*'), ('event_results', '*'), ('status', '*'), ('result', '*'), ('error', '*'),
                       ('started_at', '*'), ('completed_at', '*'), ('_handler_completed_signal', '*'), ('event_processed_at', '*'), ('set_members', '*'), ('event_history', '*'), ('task_done', '*'), ('task_cancel_requested', '*')],
-            ghost_modifies=['inhand', 'inhand_q', 'dequeued', 'processed', 'task_done_calls', 'invoked', 'eh_calls', 'spawned_tasks', 'wal_calls', 'wal_lines', 'wal_opens', 'cancel_walk_calls'],
+            ghost_modifies=['inhand', 'inhand_q', 'dequeued', 'processed', 'task_done_calls', 'invoked', 'eh_calls', 'spawned_tasks', 'wal_calls', 'mark_attempts', 'pe_handlers_entered', 'wal_lines', 'wal_opens', 'cancel_walk_calls'],
             callsites={'bus.event_queue.get_nowait': {'model': aw_get_post_model, 'writes': ['q_items'], 'ghost_writes': ['inhand', 'inhand_q', 'dequeued']},
                        'bus.process_event': {'pre': aw_process_pre},
                        'self.event_completed_signal.wait': {'pre': aw_wait_pre},
